@@ -61,6 +61,7 @@ def dispatch1 (op : String) (j : Json) : R Json :=
   | "splitLines" => hSplitLines j
   | "seedGuard" => hSeedGuard j
   | "cliParse" => hCliParse j
+  | "bpPrefix" => hBpPrefix j
   | _ => throw s!"unknown op {op}"
 
 /-- {"op":"batch","reqs":[…]} → {"resps":[…]} -/
